@@ -172,7 +172,9 @@ class NeuralUCB(RLAlgorithm):
         self.numel = sum(
             w.numel() for w in self.exp_layer.parameters() if w.requires_grad
         )
-        self.sigma_inv = torch.eye(self.numel).to(self.device) / self.lamb
+        self.sigma_inv = (
+            torch.eye(self.numel, dtype=torch.float64).to(self.device) / self.lamb
+        )
         self.theta_0 = torch.cat(
             [w.flatten() for w in self.exp_layer.parameters() if w.requires_grad]
         ).detach()
@@ -193,7 +195,7 @@ class NeuralUCB(RLAlgorithm):
         obs = self.preprocess_observation(obs)
 
         mu = self.actor(obs)
-        g = torch.zeros((self.action_dim, self.numel)).to(
+        g = torch.zeros((self.action_dim, self.numel), dtype=self.sigma_inv.dtype).to(
             self.device if self.accelerator is None else self.accelerator.device
         )
         for k, fx in enumerate(mu):
@@ -212,7 +214,7 @@ class NeuralUCB(RLAlgorithm):
                 torch.matmul(
                     torch.matmul(g[:, None, :], self.sigma_inv), g[:, :, None]
                 )[:, 0, :]
-            )
+            ).to(mu.dtype)
 
         action_values = action_values.cpu().numpy()
         if action_mask is None:
